@@ -6,6 +6,7 @@ export CARGO_NET_OFFLINE=true
 python3 tools/gen_constants.py || true
 (cd lean && lake build Copia copia_model)
 mkdir -p .build
+[ -L .build/repo ] || ln -sfn /repo .build/repo
 cp /repo/Cargo.lock harness/Cargo.lock 2>/dev/null || true
 (cd harness && CARGO_TARGET_DIR=../.build/target cargo build --release --offline -q)
 CARGO_TARGET_DIR=.build/cli-target cargo build --offline -q --features cli --bin copia --manifest-path /repo/Cargo.toml
